@@ -58,12 +58,17 @@ class {name}({base}):
     @Field(dependencies=['secret'])
     def hint(self) -> str:
         return self.secret[:1]
+
+    @property
+    @Field(dependencies=['age'], no_output=lambda v: v < 3)
+    def bonus(self) -> int:
+        return self.age * 2
 '''
 
 # key spellings
 FIELDS = {  # attribute -> (output name, spellings, values [(expr, kind)])
     "name": ("name", ["name"], [("'bob'", "valid"), ("5", "conv"), ("'toolong'", "invalid"), ("None", "invalid")]),
-    "age": ("age", ["age"], [("3", "valid"), ("'4'", "conv"), ("-1", "invalid"), ("'x'", "invalid")]),
+    "age": ("age", ["age"], [("3", "valid"), ("'4'", "conv"), ("1", "valid"), ("-1", "invalid"), ("'x'", "invalid")]),
     "tag": ("tag", ["tag"], [("'t'", "valid"), ("7", "conv")]),
     "uid": ("uid", ["uid"], [("2", "valid"), ("1", "valid")]),
     "nick": ("nickName", ["nick", "nickName", "nn"], [("'n'", "valid"), ("8", "conv")]),
@@ -71,12 +76,15 @@ FIELDS = {  # attribute -> (output name, spellings, values [(expr, kind)])
     "label": ("label", ["label"], [("'AL'", "valid")]),
     "fin": ("fin", ["fin"], [("6", "valid"), ("4", "valid")]),
     "hint": ("hint", ["hint"], [("'z'", "valid")]),
+    "bonus": ("bonus", ["bonus"], [("9", "valid")]),
 }
 UNKNOWN = ("zz", [("1", "valid"), ("'5'", "conv"), ("'x'", "other")])
 # how the instance under mutation came to be: keyword construction, __from__ (leaves a parse context on the instance),
 # or parsed as a nested field of another data class
 INIT = ["S(name='al')", "S(name='al', age=2, tag='g', nn='m', secret='q')",
-        "S.__from__(dict(name='al', age='2', tag='g'))", "H(inner=dict(name='al', nn='m')).inner"]
+        "S.__from__(dict(name='al', age='2', tag='g'))", "H(inner=dict(name='al', nn='m')).inner",
+        # runtime options that differ from the class options stay with the instance (and its copies)
+        "S.__from__(dict(name='al', age=2), options=Options(immutable=True))"]
 HOLDER = "\nclass H(Schema):\n    inner: S\n"
 # multi-key mutators (Schema only): judged by the invariant alone -- the statement's raise-and-unchanged clause speaks of
 # single-key operations
@@ -205,6 +213,7 @@ PRED = {
     "label": lambda v: type(v) is str,
     "fin": lambda v: type(v) is int and v >= 1,
     "hint": lambda v: type(v) is str,
+    "bonus": lambda v: type(v) is int,
 }
 
 
@@ -244,12 +253,14 @@ def invariant(cls, inst, opt_expr, uid0, base):
             bad.append(("immutable-removed", "immutable field uid was removed from the instance"))
         if view.get("fin") != 4:
             bad.append(("final-changed", f"Final field fin is {view.get('fin', '<absent>')!r}, declared default 4"))
+        if "bonus" in view and type(view.get("age")) is int and (view["bonus"] != view["age"] * 2 or view["bonus"] < 3):
+            bad.append(("stale-property", f"bonus == {view['bonus']!r} but age == {view['age']!r} (bonus = age * 2, published only when >= 3)"))
         sec_now = a.get("secret", "s")
         if "hint" in view and type(sec_now) is str and view["hint"] != sec_now[:1]:
             bad.append(("stale-property", f"hint == {view['hint']!r} but secret == {sec_now!r}"))
         # views agree
         for attr, (out, spellings, _) in FIELDS.items():
-            if attr in ("secret", "label", "hint"):
+            if attr in ("secret", "label", "hint", "bonus"):
                 continue
             for sp in spellings:
                 try:
@@ -342,6 +353,15 @@ def run_shard(shard, tier):
             src_after = state_key(inst)
             is_copy = stmt.startswith("c = s.copy()")
             acc.outcomes["raised:" + type(raised).__name__ if raised else "ok"] += 1
+            whole_immutable = "immutable=True" in opt_expr or "immutable=True" in init_expr
+            if whole_immutable and base == "Schema":
+                changed = e.get("c") if is_copy else cur
+                # the data of a Schema is its mapping; other attributes are plain Python attributes of the object
+                if changed is not None and isinstance(changed, type(inst)) and state_key(changed)[0] != before[0]:
+                    _viol(acc, base, opt_expr, src, init_expr, list(hist) + [stmt], label,
+                          ("copy-" if is_copy else "") + "immutable-instance-changed",
+                          "the instance is immutable (options of the instance) but the operation changed " +
+                          ("its copy" if is_copy else "it"))
             if is_copy:
                 # mutating a copy must not touch the source; the copy itself obeys the invariant
                 if src_after != before:
